@@ -48,6 +48,7 @@ type Stream struct {
 	Pes      []Pes `json:"pes"`
 	TwoPids  bool  `json:"twopids"`  // the PMT announces a second teletext PID (after the first)
 	Repeat   bool  `json:"repeat"`   // PAT/PMT repeated inside the stream
+	Vbi      bool  `json:"vbi"`      // the PMT announces the teletext PIDs with the VBI teletext descriptor (tag 46h) instead of the teletext one (56h)
 	EmptyPes bool  `json:"emptypes"` // a PES with an empty / one-byte payload is inserted (totality)
 }
 
@@ -242,6 +243,11 @@ func Build(s Stream) ([]byte, error) {
 	}
 	mx := astits.NewMuxer(context.Background(), &buf, opts...)
 	ttx := func(pid uint16, page uint8) astits.PMTElementaryStream {
+		if s.Vbi {
+			return astits.PMTElementaryStream{ElementaryPID: pid, StreamType: astits.StreamTypePrivateData,
+				ElementaryStreamDescriptors: []*astits.Descriptor{{Tag: astits.DescriptorTagVBITeletext, Length: 5,
+					VBITeletext: &astits.DescriptorTeletext{Items: []*astits.DescriptorTeletextItem{{Language: []byte("eng"), Type: 2, Magazine: 1, Page: page}}}}}}
+		}
 		return astits.PMTElementaryStream{ElementaryPID: pid, StreamType: astits.StreamTypePrivateData,
 			ElementaryStreamDescriptors: []*astits.Descriptor{{Tag: astits.DescriptorTagTeletext, Length: 5,
 				Teletext: &astits.DescriptorTeletext{Items: []*astits.DescriptorTeletextItem{{Language: []byte("eng"), Type: 2, Magazine: 1, Page: page}}}}}}
